@@ -28,18 +28,39 @@ fn gen_app(rng: &mut Rng, ids: &mut IdGen, depth: usize, params_left: usize, tak
             if prefix.is_empty() {
                 prefix.push(Seg::S(rng.pick(&STATIC_NAMES).to_string()));
             }
-            // no other item of this app under the prefix, no mount above it
-            if used.iter().any(|(r, m)| shape_prefix(&prefix, r) || (*m && shape_prefix(r, &prefix))) {
+            // no mount above or below another mount, no route of this app exactly at the prefix; routes of this app *below* the prefix are
+            // fine as long as their next segment cannot meet a first segment of the mounted application (ohkami refuses that, in one
+            // registration order at least): `/api/:id` here plus an application with `/me`, `/me/settings` mounted at `/api` is an ordinary set-up
+            if used.iter().any(|(r, m)| (*m && (shape_prefix(&prefix, r) || shape_prefix(r, &prefix))) || (!*m && same_shape(r, &prefix))) {
                 continue;
             }
             let sub = gen_app(rng, ids, depth + 1, params_left - n_params(&prefix), &prefix);
+            if used.iter().any(|(r, m)| !*m && shape_prefix(&prefix, r) && first_seg_conflict(&sub, &r[prefix.len()])) {
+                continue;
+            }
             used.push((prefix.clone(), true));
             items.push(ItemDesc::Mount { prefix, app: sub });
         } else {
-            let route = gen_route(rng, 4, params_left);
-            // routes split over several items are allowed as long as (route, method) stays unique
-            if used.iter().any(|(r, m)| *m && shape_prefix(r, &route)) {
+            let mut route = gen_route(rng, 4, params_left);
+            // one route in five is put below a prefix at which this application mounts another one
+            if rng.chance(1, 5) {
+                let mps: Vec<RouteT> = items.iter().filter_map(|it| match it { ItemDesc::Mount { prefix, .. } => Some(prefix.clone()), _ => None }).collect();
+                if !mps.is_empty() {
+                    let mp = rng.pick(&mps).clone();
+                    let mut extra = gen_route(rng, 2, params_left.saturating_sub(n_params(&mp)).min(1));
+                    if extra.is_empty() { extra.push(Seg::S(rng.pick(&STATIC_NAMES).to_string())) }
+                    route = [mp, extra].concat();
+                }
+            }
+            if n_params(&route) > params_left {
                 continue;
+            }
+            // routes split over several items are allowed as long as (route, method) stays unique; below a mount prefix see above
+            if items.iter().any(|it| matches!(it, ItemDesc::Mount { prefix, app } if shape_prefix(prefix, &route) && (route.len() == prefix.len() || first_seg_conflict(app, &route[prefix.len()])))) {
+                continue;
+            }
+            if items.iter().any(|it| matches!(it, ItemDesc::Mount { prefix, .. } if shape_prefix(prefix, &route))) {
+                ROUTES_BELOW_MOUNT.fetch_add(1, std::sync::atomic::Ordering::Relaxed);
             }
             let existing: Vec<usize> = items
                 .iter()
@@ -76,6 +97,16 @@ fn gen_app(rng: &mut Rng, ids: &mut IdGen, depth: usize, params_left: usize, tak
     AppDesc { id, fangs: vec![], items }
 }
 
+pub static ROUTES_BELOW_MOUNT: std::sync::atomic::AtomicU64 = std::sync::atomic::AtomicU64::new(0);
+
+/// would a route of the mounting application whose first segment below the mount prefix is `seg` meet a first segment of the mounted one?
+fn first_seg_conflict(app: &AppDesc, seg: &Seg) -> bool {
+    app.items.iter().any(|it| {
+        let first = match it { ItemDesc::Routes { route, .. } => route.first(), ItemDesc::Mount { prefix, .. } => prefix.first() };
+        match (first, seg) { (Some(Seg::S(a)), Seg::S(b)) => a == b, (Some(Seg::P(_)), Seg::P(_)) => true, _ => false }
+    })
+}
+
 /// choose typed-param handler kinds where the full route allows it
 fn assign_kinds(app: &mut AppDesc, rng: &mut Rng, prefix_params: usize) {
     for it in &mut app.items {
@@ -98,9 +129,11 @@ fn assign_kinds(app: &mut AppDesc, rng: &mut Rng, prefix_params: usize) {
 
 // values next to the separator in byte value ('.' = '/' - 1, '0' = '/' + 1) at the end of a segment, and values longer than a machine word,
 // are there for scans that find the next '/' a word at a time
-const PARAM_VALUES: [&str; 32] = [
+const PARAM_VALUES: [&str; 44] = [
     "1", "abc", "users2", "user", "use", "%41", "a%2Fb", "x.y", "..", ".", "%E3%81%82", "a+b", "a:b", ":id", "~", "a;b", "a=b&c", "index.html", "A", "0", "-", "_", "%2e%2e", "a%20b",
     "v1.", "archive...", "a.", "x0", "0.", "abcdefg.", "abcdefgh.", "1234567",
+    // escapes are data: a segment that decodes to control characters, DEL, C1 controls, a BOM or other non-printing characters is still a non-empty segment
+    "line1%0Aline2", "%09tab", "%7F", "%1B%5B0m", "%C2%80", "a%C2%9Fb", "%EF%BB%BFbom", "%E2%80%8B", "%0D%0A", "%01", "%E2%80%AE", "%C2%A0",
 ];
 
 #[derive(Clone, Debug)]
@@ -447,6 +480,7 @@ fn check_app(args: &Args, rep: &mut Report, case: u64, app: &AppDesc, reqs: &[Re
             }
         };
         rep.count("apps_built");
+        rep.count_n("routes_registered_below_a_mount_prefix", ROUTES_BELOW_MOUNT.swap(0, std::sync::atomic::Ordering::Relaxed));
         for rq in reqs {
             rep.eval();
             let segs = path_segments(&rq.path);
